@@ -2,7 +2,7 @@
 import os
 
 from . import core
-from .rules import stdio, cert, mark, exact, optstore, inval, idx, atomic, own, tokens, idxclass, copy, pair, structfree, buf, div, counter, sentinel, appendinit, verdict, basismap, zerotol, escape, lenclass, djsym, ndet, useb4check, norms, opencheck, shell, esolver, errlost, rescan, certdep, neverset, fmt, defaults, scratch, fullscan, slotleak, floatidx, sensemap, trunc, vtypezero, allockind, intdiv, strscan, localfield, rawidx, argcap, staleptr, condalloc, lpstate, vstattype, alphabet, outleak, fieldleak, lenm1, basisdim, dupmark, rowcopy, normlen, logonly, decacc, nzcount, infmap, lognofail, outunset, dupentry, digitseen, signedidx, strcap, nulterm, finite, nullret, pcheck
+from .rules import stdio, cert, mark, exact, optstore, inval, idx, atomic, own, tokens, idxclass, copy, pair, structfree, buf, div, counter, sentinel, appendinit, verdict, basismap, zerotol, escape, lenclass, djsym, ndet, useb4check, norms, opencheck, shell, esolver, errlost, rescan, certdep, neverset, fmt, defaults, scratch, fullscan, slotleak, floatidx, sensemap, trunc, vtypezero, allockind, intdiv, strscan, localfield, rawidx, argcap, staleptr, condalloc, lpstate, vstattype, alphabet, outleak, fieldleak, lenm1, basisdim, dupmark, rowcopy, normlen, logonly, decacc, nzcount, infmap, lognofail, outunset, dupentry, digitseen, signedidx, strcap, nulterm, finite, nullret, pcheck, probstat
 from .effects import Effects
 
 FIX = os.path.join(os.path.dirname(os.path.abspath(__file__)), "fixtures")
@@ -176,6 +176,7 @@ def c02_rules():
         lambda prog, tier: optstore.run(prog), lambda prog, tier: optstore.run_solvedgate(prog),
         lambda prog, tier: exact.run(prog, cert_scopes(prog, "INF")),
         lambda prog, tier: certdep.run(prog, which=("QSexact_infeasible_test",)),
+        lambda prog, tier: probstat.run(prog),
     ]
 
 
@@ -670,7 +671,8 @@ _ADD = {
                          "factorok typestate of the library's own calls of factorok-guarded functions",
             "level_text": " (R-FOKCALL) the driver never calls a factorok-guarded public function right after a call that reset factorok "
                           "(the exact re-test of an infeasible LP would be rejected by the library's own guard). R-CERTDEP decides presence, coverage over all internal columns, failing outcomes (<= 0) and data dependences of the "
-                          "Farkas-value and infinite-bound gates."},
+                          "Farkas-value and infinite-bound gates. (R-PROBSTAT) the simplex stores INFEASIBLE / UNBOUNDED only on the true edge of flags that are set together with the problem-level flag "
+                           "of that verdict (co-store implication over all stores of the status records)."},
     "C05": {"technique": "; per-iteration must-write analysis for the co-update of a row's sense with its logical column",
             "explanation": " (R-COUPD(sense)) every path that stores a new row sense also writes the logical column's lower bound, upper bound and "
                            "coefficient before the loop iteration / function completes; (R-SENSEMAP) ILLlib_addrow, ILLlp_add_logicals and ILLlib_chgsense "
